@@ -515,13 +515,6 @@ theorem segWrites_spec {α} (xs : List α) (g : Seg) (hax : g.y0 = g.y1 ∨ g.x0
       · simp [hf]; rw [if_pos (by omega)]; omega
 
 
-/-- a logged pattern: a header row carrying the sequence number, then rows with a blank one -/
-structure Block where
-  hdr : Row
-  body : List Row
-
-def Block.rows (b : Block) : List Row := b.hdr :: b.body
-
 theorem fill_blocks (bs : List Block)
     (hbody : ∀ b ∈ bs, ∀ r ∈ b.body, r.seq = -1)
     (hlow : ∀ b ∈ bs, -1 ≤ b.hdr.seq)
